@@ -1446,8 +1446,10 @@ def e2e_cases(ctx):
 def run_e2e(ctx, cases, timeout=None):
     timeout = timeout or ctx.budget(6.0, 20.0)
     done, reqs = [], []
-    deadline = ctx.t0 + ctx.budget(60, 780)
     import time
+    # the end-to-end part gets what is left of the budget, but never less than a floor: on a loaded machine the proof
+    # build and the predicate streams can use up the whole budget before the first build starts
+    deadline = max(ctx.t0 + ctx.budget(60, 780), time.time() + ctx.budget(25, 120))
     for case in cases:
         if time.time() > deadline:
             ctx.tally(e2e_skipped_for_time=True)
